@@ -40,10 +40,12 @@ type apiRunner struct {
 	hist     []string
 	prevDump string
 	seenOids map[primitive.ObjectID]bool
+	book     ixBook          // secondary indexes created by the successful calls so far (C15)
+	reported map[string]bool // C15 issues already reported in this history (an incoherent index stays incoherent)
 }
 
 func newAPIRunner(env *apiEnv, extra string) *apiRunner {
-	return &apiRunner{env: env, extra: extra, prevDump: apiDump(env.engine.Catalog()), seenOids: map[primitive.ObjectID]bool{}}
+	return &apiRunner{env: env, extra: extra, prevDump: apiDump(env.engine.Catalog()), seenOids: map[primitive.ObjectID]bool{}, book: ixBook{}, reported: map[string]bool{}}
 }
 
 // histReq is the replayable request of a violation: the calls so far, verbatim.
@@ -130,43 +132,81 @@ func (m *apiRunner) step(c *apiCall) apiStep {
 		})
 	}
 
-	// C15: the position map of every document set agrees with its list
-	if post != pre {
-		safely("setindex", func() {
-			for _, h := range sortedHandles(post) {
-				set := post.Namespaces[h].Documents
-				bad := len(set.Index) != len(set.List)
-				for i, d := range set.List {
-					if j, ok := set.Index[d]; !ok || j != i {
-						bad = true
-					}
-				}
-				if bad {
-					viol("C15", "Set.Index does not map every listed document to its position", "set-index-stale", h.String())
-				}
+	// C15: after every call — also a failed one, which may have written through to the live catalog
+	// (the catalog pointer is unchanged then) — every index holds exactly the documents of its
+	// collection that pass its partial filter, under every key tuple and in key order, lists them
+	// like an index rebuilt from scratch, and the index names are those the successful calls created
+	safely("index", func() {
+		if strings.HasPrefix(reply, `{"ok"`) {
+			for _, is := range m.book.record(c, reply) {
+				viol("C15", "an index creation that conflicts with an existing index was accepted", "index-incoherent:"+is.reason, is.detail)
 			}
-		})
-	}
-
-	// C07
-	if post != pre {
-		safely("unique", func() {
-			for _, h := range sortedHandles(post) {
-				if h == lungo.Oplog {
+		}
+		for _, h := range sortedHandles(post) {
+			for _, is := range indexIssues(post.Namespaces[h]) {
+				if k := h.String() + "|" + is.reason + "|" + is.detail; m.reported[k] {
+					continue
+				} else {
+					m.reported[k] = true
+				}
+				if is.reason == "set-index-stale" {
+					viol("C15", "Set.Index does not map every listed document to its position", "set-index-stale", h.String()+" after "+c.M+" "+reply)
 					continue
 				}
-				if name, a, b := uniqueViolation(post.Namespaces[h]); name != "" {
-					viol("C07", "two documents under a unique index share a key tuple", "unique-violated:"+name, h.String()+" "+vj.Enc(*a)+" "+vj.Enc(*b))
+				viol("C15", "an index does not hold exactly the documents of its collection (within its partial filter) in key order", "index-incoherent:"+is.reason,
+					h.String()+" after "+c.M+" "+clip(reply, 60)+": "+is.detail)
+			}
+		}
+		for _, is := range m.book.check(post) {
+			if k := is.reason + "|" + is.detail; m.reported[k] {
+				continue
+			} else {
+				m.reported[k] = true
+			}
+			viol("C15", "the indexes of a namespace are not the ones the successful calls created", "index-incoherent:"+is.reason, "after "+c.M+" "+clip(reply, 60)+": "+is.detail)
+		}
+	})
+
+	// C07
+	safely("unique", func() {
+		for _, h := range sortedHandles(post) {
+			if h == lungo.Oplog {
+				continue
+			}
+			if name, a, b := uniqueViolation(post.Namespaces[h]); name != "" {
+				viol("C07", "two documents under a unique index share a key tuple", "unique-violated:"+name, h.String()+" "+vj.Enc(*a)+" "+vj.Enc(*b))
+			}
+		}
+	})
+	// a uniqueness rejection is justified by a real duplicate in the collection the write would have produced
+	preNs := pre.Namespaces[lungo.Handle{c.DB, c.Coll}]
+	switch c.M {
+	case "insertOne", "replaceOne", "updateOne", "updateMany", "findOneAndReplace", "findOneAndUpdate":
+		if reply == `{"err":"dup"}` {
+			safely("spurious", func() {
+				if c.M == "insertOne" && !collides(preNs, c.Doc) {
+					viol("C07", "an insert was rejected as duplicate although no unique index holds a colliding key", "spurious-dup", vj.Enc(c.Doc))
+				} else if detail := spuriousDup(preNs, itemOfCall(c)); detail != "" {
+					viol("C07", "a write was rejected as duplicate although the resulting collection would hold no two documents with equal keys under a unique index", "spurious-dup:"+c.M, detail)
 				}
-			}
-		})
-	}
-	if c.M == "insertOne" && reply == `{"err":"dup"}` {
-		safely("spurious", func() {
-			if !collides(pre.Namespaces[lungo.Handle{c.DB, c.Coll}], c.Doc) {
-				viol("C07", "an insert was rejected as duplicate although no unique index holds a colliding key", "spurious-dup", vj.Enc(c.Doc))
-			}
-		})
+			})
+		}
+	case "createIndex":
+		if reply == `{"err":"dup"}` {
+			safely("spurious", func() {
+				if detail := spuriousIndexDup(preNs, c); detail != "" {
+					viol("C07", "a unique index build was rejected although no two documents share a key", "spurious-dup:createIndex", detail)
+				}
+			})
+		}
+	case "insertMany", "bulkWrite":
+		if strings.Contains(reply, `"dup"`) && strings.HasPrefix(reply, `{"ok"`) {
+			safely("spurious", func() {
+				for _, detail := range batchSpurious(pre, c, reply) {
+					viol("C07", "a batch item was rejected as duplicate although the collection at that point would hold no duplicate", "spurious-dup:"+c.M, detail)
+				}
+			})
+		}
 	}
 
 	// C08
